@@ -604,6 +604,17 @@ func (l *lexer) errorNode(msg string) ast.Node {
 	return ast.NewConst(ast.ConstNull)
 }
 
+// anyLevel returns level, the value of an integer literal used as a level of
+// the .** accessor, and records an error if err reports that it could not be
+// converted to an int32.
+func (l *lexer) anyLevel(level int64, err error) int {
+	if err != nil {
+		l.Error(".** level is out of integer range")
+		return 0
+	}
+	return int(level)
+}
+
 // setPred indicates that the path being lexed is a predicate path query.
 // Called by the parser grammar.
 func (l *lexer) setPred() {
